@@ -643,6 +643,25 @@ def _make_xinterp():
                 ast.copy_location(s2, s)
                 return super().s_Delete(s2, env)
 
+        # ---- generator expressions over CONCRETE lists without path forks (opt-in: extra_builtins["pure_generators"]): the element
+        # expression is evaluated in pure mode (boolean operators become formulas), as for quantified comprehensions; falls back to
+        # the forking evaluation when an operand is partial.  all(p(s) for s in nine_elements) then costs one formula, not 3^9 paths
+        def e_GeneratorExp(self, n, env):
+            if self.world.extra_builtins.get("pure_generators") and not self.pure:
+                mark = (len(self.ctx.decisions), len(self.ctx.forks), self.ctx.pos)
+                self.pure += 1
+                try:
+                    r = super().e_GeneratorExp(n, env)
+                    if mark == (len(self.ctx.decisions), len(self.ctx.forks), self.ctx.pos):
+                        return r
+                except Unsupp:
+                    pass
+                finally:
+                    self.pure -= 1
+                if mark != (len(self.ctx.decisions), len(self.ctx.forks), self.ctx.pos):
+                    raise Unsupp("generator expression forked in pure mode")
+            return super().e_GeneratorExp(n, env)
+
         # ---- strings: contracts may give f-strings a meaning (labels built from symbolic parts)
         def e_JoinedStr(self, n, env):
             hook = self.world.extra_builtins.get("fstring")
